@@ -472,6 +472,22 @@ def c14_e(ctx: Ctx):
                                                 "sub-documents are replaced wholesale (destination-only nested keys are lost) instead of being merged key by key", construct=k))
                         else:
                             out.append(ctx.inc(R, ms, n, f"{flag}: strategy {canon(v)[:50]}", construct=k))
+    if ms is not None:
+        # a key pattern taken from the command line selects keys only if it is non-empty: re.match('', key) succeeds for every key
+        for c in body_nodes(ms):
+            if not (isinstance(c, ast.Call) and canon(c.func) in ("DocSync.ByKey", "sync.DocSync.ByKey") and c.args):
+                continue
+            a0 = c.args[0]
+            if "args.key" not in canon(a0).replace(" ", ""):
+                continue
+            facts = common.expand_facts(ctx, ms, common.facts_at(ctx, ms, c, "n"))
+            kk = f"{ms.qual}|--key-non-empty"
+            if ("args.key", True) in facts or any(pol and t.replace(" ", "") in ("len(args.key)>0", "args.key!=''") for (t, pol) in facts):
+                out.append(ctx.ok(R, ms, c, "a key strategy is built from --key only when the pattern is non-empty", construct=kk))
+            else:
+                out.append(ctx.viol(R, ms, c, "a key strategy is built from --key also when the pattern is the empty string (e.g. --key \"$PATTERN\" with an unset variable): re.match('', key) "
+                                    "matches every key, so all conflicting document keys are overwritten and the command reports success, where an absent selection raises "
+                                    "DocumentSyncConflict and rolls the documents back", construct=kk))
     for q in ("signac.sync:sync_jobs", "signac.sync:sync_projects"):
         fi = ctx.fn(q)
         # the merge application: a call of the doc_sync parameter itself; on every path to it both sentinels have been excluded
@@ -522,4 +538,14 @@ def c14_h(ctx: Ctx):
     return keyed_by_parameter(ctx, "C14-h", [("signac.sync:FileSync.Ask.__call__", "self.yes", "fn", why), ("signac.sync:FileSync.Ask.__call__", "self.no", "fn", why)])
 
 
-RULES = [c14_a, c14_b, c14_c, c14_d, c14_e, c14_f, c14_g, c14_h]
+@rule("C14-i")
+def c14_i(ctx: Ctx):
+    """A file the strategy said to overwrite is overwritten: the proxy's copy() has no skip condition of its own (from C13-k)."""
+    from .c13 import c13_k
+    res = [r for r in c13_k(ctx) if "always-transfers" in r.construct]
+    for r in res:
+        r.rule = "C14-i"
+    return res
+
+
+RULES = [c14_a, c14_b, c14_c, c14_d, c14_e, c14_f, c14_g, c14_h, c14_i]
